@@ -136,6 +136,27 @@ fn restrict(m: &MMappings, i: usize, x: &MMappings) -> MMappings {
 	}
 	out
 }
+/// the order law for B: entries whose key the corresponding node of A also has, in A's order, then the rest in B's order
+fn reord<T: Clone, K: PartialEq>(xa: &[T], lb: &[T], key: impl Fn(&T) -> K) -> Vec<T> {
+	let mut out: Vec<T> = vec![];
+	for x in xa { if let Some(y) = lb.iter().find(|y| key(y) == key(x)) { out.push(y.clone()); } }
+	for y in lb { if !xa.iter().any(|x| key(x) == key(y)) { out.push(y.clone()); } }
+	out
+}
+fn reorder(a: &MMappings, b: &MMappings) -> MMappings {
+	let mut out = MMappings { ns: b.ns.clone(), doc: b.doc.clone(), classes: vec![] };
+	for yc in reord(&a.classes, &b.classes, ckey) {
+		let xc = a.classes.iter().find(|c| ckey(c) == ckey(&yc));
+		let (xf, xm): (&[MField], &[MMeth]) = match xc { Some(c) => (&c.fields, &c.methods), None => (&[], &[]) };
+		let mut c = MClass { names: yc.names.clone(), doc: yc.doc.clone(), fields: reord(xf, &yc.fields, fkey), methods: vec![] };
+		for ym in reord(xm, &yc.methods, mkey) {
+			let xp: &[MParam] = match xm.iter().find(|m| mkey(m) == mkey(&ym)) { Some(m) => &m.params, None => &[] };
+			c.methods.push(MMeth { desc: ym.desc.clone(), names: ym.names.clone(), doc: ym.doc.clone(), params: reord(xp, &ym.params, pkey) });
+		}
+		out.classes.push(c);
+	}
+	out
+}
 /// the key paths of a set, as strings (for the union law)
 fn key_paths(m: &MMappings) -> (BTreeSet<String>, usize) {
 	let mut s = BTreeSet::new(); let mut n = 0;
@@ -455,6 +476,9 @@ fn through(r: &mut Report, stream: &str, a: &MMappings, b: &MMappings) {
 			// projections
 			if restrict(m, 1, a) != *a { vio(r, "projection onto (s,a), restricted to A's keys and A's comments, is not A".into(), a, b, &shown); }
 			if !restrict(m, 2, b).equiv(b) { vio(r, "projection onto (s,b), restricted to B's keys and B's comments, is not B".into(), a, b, &shown); }
+			let rb = restrict(m, 2, b);
+			if rb != reorder(a, b) { vio(r, "projection onto (s,b), restricted to B's keys and B's comments, is not B reordered (shared entries in A's order, then the rest in B's order)".into(), a, b, &shown); }
+			if rb != *b { r.count("restrict_b:order differs from B"); } else { r.count("restrict_b:same order as B"); }
 		}
 	}
 	if let Ok(g) = &got {
